@@ -7,13 +7,14 @@ enum { K_OK, K_MULT, K_UNSUPP_EXPECTED, K_N };
 static const char *CLS[] = { "roundtrip_ok_auto_ok", "roundtrip_ok_auto_multlang", "reserved_bit_refused", NULL };
 
 static int ORACLE;            /* 1 = c01, 3 = c03 */
+static int THREADPART;        /* part t: the replay sub-command is "tcase" (both passes are run again) */
 static int NL;
 
 struct kase { rseed r; int li; unsigned coin; unsigned mask; };
 
 static void kase_str(const struct kase *k, char *out) {
     char h[40]; hex(k->r.secret, 19, h);
-    sprintf(out, "case %s %s %u %u %d %u %u", ORACLE == 1 ? "c01" : "c03", h, k->r.birthday, k->r.features, k->li, k->coin, k->mask);
+    sprintf(out, "%s %s %s %u %u %d %u %u", THREADPART ? "tcase" : "case", ORACLE == 1 ? "c01" : "c03", h, k->r.birthday, k->r.features, k->li, k->coin, k->mask);
 }
 
 /* returns 0 if fine; records a violation otherwise */
@@ -350,6 +351,20 @@ static void work_h(long lo, long hi, struct res *r, void *arg) {
     for (long x = lo; x < hi; x++) { if (past_deadline()) { r->timed_out = 1; return; } hist_one(x, r); }
 }
 
+/* part t: the same round trips on the main thread and then, after it is done, on a second thread (started and joined: no
+ * interleaving, this is not C20).  What the library prepared lazily on the first thread must serve the second one as well. */
+#include <pthread.h>
+struct targ { struct res *r; int pass; };
+static void *thread_cases(void *a) {
+    struct targ *t = a;
+    for (int li = 0; li < R_NLANG; li++) for (int v = 0; v < 4; v++) {
+        struct kase k; memset(&k.r, 0, sizeof k.r); for (int i = 0; i < 19; i++) k.r.secret[i] = (uint8_t)(0x31 + 37 * i + 11 * v + li); k.r.secret[18] &= 0x3F;
+        k.r.birthday = 100 + 200 * (unsigned)v; k.r.features = (v & 1) ? 16u | (unsigned)v : (unsigned)v; k.li = li; k.coin = (unsigned)(v * 683 + t->pass) & 2047u; k.mask = 7;
+        run_case(&k, t->r, 0);
+    }
+    return NULL;
+}
+
 int main(int argc, char **argv) {
     int a = common_args(argc, argv);
     ref_init(VERIF_ROOT); sec_mark_initial(); env_init(); inject(0);
@@ -364,6 +379,14 @@ int main(int argc, char **argv) {
         int bad = run_case(&k, r, 1);
         for (int i = 0; i < r->nviol; i++) printf("REPRODUCED %s: %s\n", r->v[i].key, r->v[i].msg);
         return bad ? 1 : 0;
+    }
+    if (a < argc && !strcmp(argv[a], "tcase")) {
+        /* tcase <oracle> ...: part t again - the main-thread pass, then the pass on a second thread */
+        ORACLE = (argc - a >= 2 && !strcmp(argv[a + 1], "c03")) ? 3 : 1; THREADPART = 1;
+        struct res *r = calloc(1, sizeof *r); struct targ t0 = { r, 0 }, t1 = { r, 1 }; thread_cases(&t0);
+        pthread_t th; if (pthread_create(&th, NULL, thread_cases, &t1) == 0) pthread_join(th, NULL);
+        for (int i = 0; i < r->nviol; i++) printf("REPRODUCED %s: %s\n", r->v[i].key, r->v[i].msg);
+        return r->nviol ? 1 : 0;
     }
     if (a < argc && !strcmp(argv[a], "hist")) {
         if (argc - a < 2) { fprintf(stderr, "usage\n"); return 2; }
@@ -390,6 +413,9 @@ int main(int argc, char **argv) {
     out_part("e:created-and-crypted-seeds", r, CLS, "seeds obtained through create/crypt with PRNG tapes (additional, not a decision factor)");
     if (G_thorough) { memset(r, 0, sizeof *r); par_run(14L * 2048 * 2048, work_f, NULL, r); out_part("f:all value pairs of adjacent data words", r, CLS, "14 word pairs x 2048 x 2048, languages rotating with the position"); }
     memset(r, 0, sizeof *r); extremal(r); out_part("g:exact extremal phrases (longest word in all 16 positions)", r, CLS, "the phrases that reach the computed maximum length to the byte");
+    { memset(r, 0, sizeof *r); struct targ t0 = { r, 0 }, t1 = { r, 1 }; THREADPART = 1; thread_cases(&t0);
+      pthread_t th; if (pthread_create(&th, NULL, thread_cases, &t1) == 0) pthread_join(th, NULL); else r->timed_out = 1;
+      out_part("t:round trips on the main thread, then on a second thread started afterwards", r, CLS, "10 languages x 4 seeds per thread; sequential (thread joined), lazily prepared library state must serve both"); THREADPART = 0; }
     if (ORACLE == 3) { memset(r, 0, sizeof *r); par_run(2L * 65536, work_h, NULL, r);
         out_part("h:encode, password operation under every mask of a 2^16 family, encode again", r, CLS_H, "2 start seeds (plain, encrypted) x 65536 masks (mask bytes 0-1); languages and coins rotated"); }
     out_kv_int("backgrounds", NBG);
